@@ -546,7 +546,17 @@ func c184(c *an.Ctx, p *an.Prog) {
 				}
 			})
 		}
-		c.Check(len(bad) == 0 && n == 1, "C18.4", fnKey(rl)+"|swap-guard", p.Pos(rl.Pos()), "s.dir = newdir only under load err==nil ∧ newdir.Check()==nil, newdir loaded from s.configfile", strings.Join(uniqS(bad), "; "))
+		// the swap happens in the dispatcher goroutine only: requests in flight never see s.dir change under them
+		if d := dispatcherFn(p); d != nil {
+			for _, r := range p.Roles(rl, false) {
+				if r != d {
+					bad = append(bad, "reload (and with it the swap of s.dir) can run in goroutine "+fnKey(r)+", concurrently with requests that read s.dir more than once")
+				}
+			}
+		} else {
+			bad = append(bad, "dispatcher goroutine not found")
+		}
+		c.Check(len(bad) == 0 && n == 1, "C18.4", fnKey(rl)+"|swap-guard", p.Pos(rl.Pos()), "s.dir = newdir only under load err==nil ∧ newdir.Check()==nil, newdir loaded from s.configfile, inside the dispatcher goroutine", strings.Join(uniqS(bad), "; "))
 	}
 	// writers of lib.Dir fields
 	{
